@@ -714,13 +714,16 @@ def decorate_with_checker(func: CallableT) -> CallableT:
                 in_progress = set()
                 _IN_PROGRESS.set(in_progress)
 
+            # If the wrapper is already checking the contracts for the wrapped function, avoid a recursive loop
+            # by skipping any subsequent contract checks for the same function.
+            #
+            # This short-cut must stay outside of the try-finally block below so that a re-entrant call does not
+            # discard the mark set by the outer call which is still checking the contracts.
+            if id_func in in_progress:
+                return await func(*args, **kwargs)
+
             # Use try-finally instead of ExitStack for performance.
             try:
-                # If the wrapper is already checking the contracts for the wrapped function, avoid a recursive loop
-                # by skipping any subsequent contract checks for the same function.
-                if id_func in in_progress:
-                    return await func(*args, **kwargs)
-
                 in_progress.add(id_func)
 
                 (preconditions, snapshots, postconditions) = _unpack_pre_snap_posts(
@@ -787,13 +790,16 @@ def decorate_with_checker(func: CallableT) -> CallableT:
                 in_progress = set()
                 _IN_PROGRESS.set(in_progress)
 
+            # If the wrapper is already checking the contracts for the wrapped function, avoid a recursive loop
+            # by skipping any subsequent contract checks for the same function.
+            #
+            # This short-cut must stay outside of the try-finally block below so that a re-entrant call does not
+            # discard the mark set by the outer call which is still checking the contracts.
+            if id_func in in_progress:
+                return func(*args, **kwargs)
+
             # Use try-finally instead of ExitStack for performance.
             try:
-                # If the wrapper is already checking the contracts for the wrapped function, avoid a recursive loop
-                # by skipping any subsequent contract checks for the same function.
-                if id_func in in_progress:
-                    return func(*args, **kwargs)
-
                 in_progress.add(id_func)
 
                 (preconditions, snapshots, postconditions) = _unpack_pre_snap_posts(
